@@ -31,6 +31,8 @@ const (
 	fLinkChange
 	fCancel
 	fHandlerErr
+	fInitWriteSyscall // the initial multicast RA of the first connection fails with a system-call error
+	fInitWriteErr     // … with another error
 )
 
 // runGroup injects one fault into a running task and observes how the whole task reacts:
@@ -55,6 +57,17 @@ func runGroup(t *testing.T, out *vfh.Out, monitor, unicastOnly bool, kind int, t
 		d.DialFunc = func() (*system.DialContext, error) {
 			c := newVfConn()
 			c.t0 = start
+			if len(conns) == 0 && (kind == fInitWriteSyscall || kind == fInitWriteErr) {
+				c.writeErr = func(k int, _ netip.Addr) error {
+					if k != 0 {
+						return nil
+					}
+					if kind == fInitWriteSyscall {
+						return &os.SyscallError{Syscall: "sendmsg", Err: syscall.ENETDOWN}
+					}
+					return errors.New("scripted write error")
+				}
+			}
 			conns = append(conns, c)
 			dialAt = append(dialAt, time.Since(start))
 			return &system.DialContext{Conn: c,
@@ -76,6 +89,9 @@ func runGroup(t *testing.T, out *vfh.Out, monitor, unicastOnly bool, kind int, t
 		c0 := conns[0]
 		sysErr := &os.SyscallError{Syscall: "recvmsg", Err: syscall.ENETDOWN}
 		faultAt := time.Since(start)
+		if kind == fInitWriteSyscall || kind == fInitWriteErr {
+			faultAt = 0
+		}
 		switch kind {
 		case fReadErr:
 			c0.deliver(vfRead{err: errors.New("scripted read error")})
@@ -189,6 +205,9 @@ func verifC10Group(t *testing.T, r *vfh.Rand, out *vfh.Out) {
 				}
 			}
 		}
+	}
+	for _, kind := range []int{fInitWriteSyscall, fInitWriteErr} {
+		runGroup(t, out, false, false, kind, 1) // (a unicast-only advertiser makes no initial transmission)
 	}
 	n := vfh.N(200, 5000)
 	for i := 0; i < n; i++ {
